@@ -430,7 +430,7 @@ pub fn compare_roundtrip(f: &Forest, roots: &[u64], dom: &WeakDom) -> Vec<Findin
                 Logical::Prop { known, ser_ty, .. } => (known, ser_ty),
                 Logical::Skip => continue,
             };
-            let dbdef = db.classes.get(n.class.as_str()).and_then(|c| db.find_default_property(c, &q)).cloned();
+            let dbdef = nearest_default(db, n.class.as_str(), &q);
             let expected = match dbdef {
                 Some(d) => Some(norm_value(&d, known, ser_ty)),
                 None => neutral(carrier_ty).map(|d| norm_value(&d, known, ser_ty)),
@@ -904,4 +904,23 @@ pub fn c15(id: &str, f: &Forest, r: &[(CompressionType, Enc)], out: &mut Vec<Str
             break;
         }
     }
+}
+
+/// the database default a class column must show for instances lacking the property: the entry of the NEAREST class in the
+/// superclass chain that has one.  Walked here independently of `ReflectionDatabase::find_default_property`, which is
+/// code under test.
+pub fn nearest_default(db: &rbx_reflection::ReflectionDatabase<'static>, class: &str, prop: &str) -> Option<Variant> {
+    let mut cur = db.classes.get(class);
+    let mut steps = 0usize;
+    while let Some(c) = cur {
+        if let Some(v) = c.default_properties.get(prop) {
+            return Some(v.clone());
+        }
+        cur = c.superclass.as_ref().and_then(|s| db.classes.get(s.as_ref()));
+        steps += 1;
+        if steps > db.classes.len() {
+            break;
+        }
+    }
+    None
 }
